@@ -14,9 +14,10 @@ Trace_RelayServer.tla (every status / peer-gone frame and every answer of Client
 explained by a Register / Unregister / NotifyGone of the spec).
 
 Mutation self-test (recorded 2026-09-22): `unregister` promoting the *first* inactive connection
-(`state.inactive.remove(0)` instead of `pop()`) -> `VIOLATION property=C06` (mode A, e.g. connect a1, a2,
-a3, close a1, close a2, disconnect a3: the registry state / status frames differ from every TLC outcome;
-mode B additionally sees a datagram arriving at a connection the spec has as inactive); undone -> exit 0.
+(`state.inactive.remove(0)` instead of `pop()`) -> `VIOLATION property=C06`, sig kind=status_frames (mode A:
+connect a1, a2, a3, close a3: `healthy` arrives at a1 instead of a2); undone -> exit 0.  An unplanned
+second one: a copy of the tree in which `Clients::disconnect(key, Some(id))` no longer called
+`start_shutdown` (another builder's temporary mutation) -> `VIOLATION property=C06`, kind=actor_lifetime.
 (Mutations are applied to a private copy of /repo and /verif under /var/tmp, built with a trimmed copy of
 the harness crate, so that the shared /repo is never left mutated while others build against it.)
 """
@@ -103,8 +104,8 @@ def run(ctx):
     for pre, steps, ops in ctx.pick(
             [("reg3", 6, '{"connect", "close", "disconnect"}'),
              ("reg", 5, '{"connect", "frame", "close", "disconnect", "disconnectkey"}')],
-            [("reg3", 8, '{"connect", "close", "disconnect", "frame"}'),
-             ("reg", 7, '{"connect", "frame", "close", "disconnect", "disconnectkey"}')]):
+            [("reg3", 7, '{"connect", "close", "disconnect", "frame"}'),
+             ("reg", 6, '{"connect", "frame", "close", "disconnect", "disconnectkey"}')]):
         consts = {"Keys": '{"A", "B"}', "FrameDsts": '{"A", "B"}',
                   "PktCap": 2, "MsgCap": 2, "MaxFrames": 2, "Classes": '{"normal"}', "FixUndeliverable": "TRUE",
                   "MaxSteps": steps, "Ops": ops}
@@ -123,7 +124,7 @@ def run(ctx):
         total += len(scen)
         ctx.log("replayed %d call sequences (%d TLC behaviours) of instance %s" % (len(scen), len(res.replays), pre))
     # 3. randomized multi-thread runs -> trace validation (mode B)
-    evs, res, kinds = rc.random_traces(ctx, "C06", ctx.pick(8, 60), ctx.pick(60, 120), seed_offset=1000)
+    evs, res, kinds = rc.random_traces(ctx, "C06", ctx.pick(8, 40), ctx.pick(60, 100), seed_offset=1000)
     if res.ok and kinds.get("recv-same", 0) + kinds.get("recv-healthy", 0) + kinds.get("recv-gone", 0) == 0:
         raise rc.ToolError("vacuity: no status / peer-gone frame was delivered in the random runs")
     if not ctx.quick and res.ok:
